@@ -33,7 +33,9 @@ the module / package into the CURRENT classes on every rendering;
 handle, Python class, EClass, namesake instance, resolved / unresolved proxy)
 as reference values and isinstance arguments; `breadth` -- same operation names
 in several classes, dynamic metamodel built operations-first / parameters
-afterwards: inspect.signature and calls (both replayed by scenario_replay)."""
+afterwards: inspect.signature and calls; `ctor-keywords` -- instances made
+through constructor keywords (explicit None, lists / tuples, wrong values):
+value, eIsSet, saved document (these three replayed by scenario_replay)."""
 import copy
 import os
 import tempfile
@@ -333,7 +335,7 @@ def behave_case(ctx, out, st, scenario, D, history, driver=None):
         return
     render, j, a, b = d
     cut = history
-    if j is not None and driver in (None, sd.BreadthBehaviour):
+    if j is not None and driver in (None, sd.BreadthBehaviour, sd.CtorBehaviour):
         # the steps on the same instance up to the differing one are enough when they still differ
         small = [h for h in history[:j + 1] if h[1] == history[j][1]]
         d2 = behave_first_difference(behave_traces(D, small, driver))
@@ -344,7 +346,7 @@ def behave_case(ctx, out, st, scenario, D, history, driver=None):
         d2 = behave_first_difference(behave_traces(D, small, driver))
         cut = small if d2 is not None and d2[1] == len(small) - 1 else history[:j + 1]
     step = history[j] if j is not None else ['construct']
-    who = '-' if j is None else (D['classes'][step[1]]['name'] if driver in (None, sd.BreadthBehaviour) or step[0] in ('make', 'all', 'eall')
+    who = '-' if j is None else (D['classes'][step[1]]['name'] if driver in (None, sd.BreadthBehaviour, sd.CtorBehaviour) or step[0] in ('make', 'all', 'eall')
                                  else f'{step[1]}')
     out.fail({'property': PID, 'clause': 'behaviour', 'scenario': scenario, 'culprit': step[0], 'render': render},
              f'{scenario}: step {step} on {who}: '
@@ -411,6 +413,17 @@ def offers_scenarios(ctx, out, model=None, st=None):
     for _ in range(20 if ctx.tier != 'thorough' else 150):
         D = sd.gen_population_descr(rng)
         behave_case(ctx, out, st, 'nonmembers', D, sd.offers_history(D, rng), sd.Offers)
+
+
+def ctor_scenarios(ctx, out, model=None, st=None):
+    """instances made through constructor keywords on every rendering (every static style with the __init__(**kwargs)
+    generated code writes): subsets of the features, explicit None for attributes with non-None defaults and for
+    references, lists / tuples / empty for many-valued features, some wrong values; value, eIsSet, saved document"""
+    st = st if st is not None else new_sdstats()
+    rng = common.rng_for(ctx.seed, 'C13:ctor-keywords')
+    for _ in range(20 if ctx.tier != 'thorough' else 150):
+        D = sd.gen_ctor_descr(rng)
+        behave_case(ctx, out, st, 'ctor-keywords', D, sd.ctor_history(D, rng), sd.CtorBehaviour)
 
 
 def breadth_scenarios(ctx, out, model=None, st=None):
@@ -586,6 +599,7 @@ def run(ctx, out):
     rerender_scenarios(ctx, out, model, sdstats)
     offers_scenarios(ctx, out, model, sdstats)
     breadth_scenarios(ctx, out, model, sdstats)
+    ctor_scenarios(ctx, out, model, sdstats)
     staticdecl_bodies(ctx, out, model, sdstats, 150 if not thorough else 3000)
     model.close()
     out.coverage.update({'staticdecl_' + k: v for k, v in sdstats.items()})
@@ -604,8 +618,9 @@ def run(ctx, out):
 
 def replay(ctx, rep):
     case = rep['case']
-    if case.get('scenario') in ('nonmembers', 'breadth'):
-        return common.scenario_replay(ctx, rep, {'nonmembers': offers_scenarios, 'breadth': breadth_scenarios})
+    if case.get('scenario') in ('nonmembers', 'breadth', 'ctor-keywords'):
+        return common.scenario_replay(ctx, rep, {'nonmembers': offers_scenarios, 'breadth': breadth_scenarios,
+                                                 'ctor-keywords': ctor_scenarios})
     if case.get('scenario') == 'rerender':
         d = rerender_difference(case['behave'], case['revised'])
         print('REPRODUCED ' + str(d)[:400] if d is not None else 'not reproduced')
